@@ -17,18 +17,20 @@ Theorem tr_tw_After_pos_equiv : forall (t timeout : N) (w : wheel),
   end.
 Proof.
   intros t timeout w Ht Hs Hb Hto Hc. unfold tr_tw_After_pos, after, after_pos.
-  destruct (t * N.of_nat (w_size w) <=? timeout)%N eqn:E.
-  - replace (Z.of_N (t * N.of_nat (w_size w)) <=? Z.of_N timeout) with true by lia. reflexivity.
-  - replace (Z.of_N (t * N.of_nat (w_size w)) <=? Z.of_N timeout) with false by lia.
-    replace (Z.of_N t =? 0) with false by lia. cbn [negb].
-    rewrite Z.quot_div_nonneg by lia. rewrite <- N2Z.inj_div.
-    set (q := (timeout / t)%N).
-    assert (Hq : (q <= timeout)%N) by (unfold q; apply N.div_le_upper_bound; nia).
-    rewrite wrapS64_id by lia.
-    assert (Pos : (if 0 <? Z.of_N q then Next (wrapS 64 (Z.of_N q - 1)) else Next (Z.of_N q) : ctl Z unit) = Next (Z.of_nat (Init.Nat.pred (N.to_nat q)))).
-    { destruct (0 <? Z.of_N q) eqn:C; [rewrite wrapS64_id by lia|]; f_equal; lia. }
-    assert (Hsz : Z.of_nat (w_size w) <= Z.of_N t * Z.of_nat (w_size w)) by nia.
-    rewrite Pos. cbn [bindc]. replace (Z.of_nat (w_size w) =? 0) with false by lia. cbn [negb].
+  (* case split on the meaning of the conditions; every condition of the translated code and of the model is then
+     decided by arithmetic, whatever its shape *)
+  destruct (t * N.of_nat (w_size w) <=? timeout)%N eqn:E; decide_conds; [reflexivity|]. cbn [negb].
+  rewrite Z.quot_div_nonneg by lia. rewrite <- N2Z.inj_div.
+  set (q := (timeout / t)%N).
+  assert (Hq : (q <= timeout)%N) by (unfold q; apply N.div_le_upper_bound; nia).
+  rewrite wrapS64_id by lia.
+  assert (Hsz : Z.of_nat (w_size w) <= Z.of_N t * Z.of_nat (w_size w)) by nia.
+  assert (C : q = 0%N \/ (0 < q)%N) by lia.
+  destruct C as [C|C]; decide_conds; cbn [bindc negb]; try rewrite (wrapS64_id (Z.of_N q - 1)) by lia.
+  - replace (Z.of_N q) with (Z.of_nat (Init.Nat.pred (N.to_nat q))) by lia.
+    rewrite wrapS64_id by lia. rewrite Z.rem_mod_nonneg by lia.
+    rewrite <- Nat2Z.inj_add, <- Nat2Z.inj_mod. reflexivity.
+  - replace (Z.of_N q - 1) with (Z.of_nat (Init.Nat.pred (N.to_nat q))) by lia.
     rewrite wrapS64_id by lia. rewrite Z.rem_mod_nonneg by lia.
     rewrite <- Nat2Z.inj_add, <- Nat2Z.inj_mod. reflexivity.
 Qed.
